@@ -252,3 +252,23 @@ CHECKS["C16"] = {
     "technique": "contract-based deductive verification: symbolic execution of the real workspace operations on skeletons with symbolic content, both branches of every content comparison, z3-discharged postconditions against specification functions of the statement; native replay incl. likelihood comparison",
 }
 NOT_APPLICABLE.pop("C16", None)
+
+CHECKS["C11"] = {
+    "category": "proof",
+    "text": ("Three layers on the real source. (E) events.Callables / subscribe / trigger with an explicit weak-reference model, every live/dead pattern "
+             "of up to four subscribed bound methods: a trigger calls exactly the live subscribers once, in subscription order, dead references are not "
+             "called and are dropped. (M) tensor/manager.set_backend for 3 starting states x 8 requests (incl. bytes, upper case, precision "
+             "override) x optimizers x default flag: afterwards get_backend() is the requested pair, tensorlib_changed fires iff name or precision "
+             "changed and only after the state was switched, default state only with default=True, unsupported names / precisions refused. (H) "
+             "histories, skeleton-bounded and value-unbounded: the real Model construction (real events registry, every real _precompute of _MainModel, "
+             "the seven *_combined appliers, both constraint classes, ParamViewer, _TensorViewer, interpolators code0/1/2/4/4p) interleaved with real "
+             "set_backend calls set(a); O1; set(b); O2; [collect O1]; set(c); O3 over {numpy/64b, numpy/32b, jax/64b}^3: every live old object is "
+             "proved equal to the fresh O3 attribute by attribute (values; for derived tensors also the precision / backend tag, so a tensor that was not "
+             "re-derived is recognised), expected_data and logpdf at a symbolic parameter point are equal and are tensors of the current backend that "
+             "consumed no tensor of an earlier backend, nothing raises and collected objects are not called."),
+    "note": ("jax / pytorch / tensorflow are represented by the shared tensor-op contracts with their own tag (their array types and the jax jit cache are "
+             "external); weak references and garbage collection are a model driven by the harness; histories bounded to three switches; inference equality "
+             "follows from equal expected_data / logpdf; the replay runs random histories on the real installed backends"),
+    "technique": "contract-based deductive verification: symbolic execution of the real event registry, set_backend and every _precompute along bounded switch/create/collect histories, representation invariant 'old object state == fresh object state' discharged structurally and by z3; native replay on real backends",
+}
+NOT_APPLICABLE.pop("C11", None)
